@@ -18,6 +18,9 @@
        are heap objects too, so "a new instance", "shares the field object", "shares no mutable
        object" are statements about references.
 
+   A user-written __post_init__ is a journal entry followed by a list of statements - object.__setattr__(self, n, v)
+   on the object under construction and super().__post_init__() - and a final return / raise.
+
    The type checker is NOT modelled here: `check : bool -> heap -> ann -> value -> outcome unit`
    (assert_value_matches_type: returns or raises) is a Section variable and annotations are opaque
    tokens (C01/C02 are about the checker; Model/DataclassEval.v plugs in Model/Checker.v).  The
@@ -77,7 +80,14 @@ Definition meth_eqb (a b : meth) : bool :=
 (* ---------------------------------------------------------------- class definitions *)
 Inductive dflt := DNone | DVal (v : value) | DFactory (k : okind).   (* default_factory yields a fresh empty object *)
 Record field := mkField { f_name : name; f_ann : ann; f_default : dflt; f_init : bool; f_compare : bool }.
-Inductive pib := PIRet | PIRaise (e : exn).       (* user __post_init__: journals, then returns or raises *)
+(* a user-written __post_init__: journals, then runs its statements in order -
+     object.__setattr__(self, n, v)      (the way a frozen dataclass fills / normalises a field) and
+     super().__post_init__()
+   - and finally returns or raises *)
+Inductive pistmt := PSet (n : name) (v : value) | PSuper.
+Record pib := mkPib { pb_body : list pistmt; pb_raise : option exn }.
+Definition PIRet : pib := mkPib [] None.
+Definition PIRaise (e : exn) : pib := mkPib [] (Some e).
 Record decoargs := mkDeco { da_shortcut : bool; da_given : list (dparam * bool) }.
 Record layer := mkLayer {
   l_id : nat;                       (* class identity *)
@@ -267,17 +277,35 @@ Section Sem.
       end
     else raise AttributeErrorC.
 
+  (* ------------------------------------------------------------ object.__setattr__ (bypasses the frozen __setattr__) *)
+  Definition has_dict (C : chain) : bool := existsb (fun L => negb (decorated L && eff_slots L)) C.
+  Definition set_attr_raw (r : nat) (n : name) (v : value) : M unit :=
+    fun s => (mkSt (heap_upd (s_heap s) r (fun o => mkObj (o_kind o) (o_items o) (dict_set (o_attrs o) n v))) (s_journal s), Ok tt).
+  Definition del_attr_raw (r : nat) (n : name) : M unit :=
+    fun s => (mkSt (heap_upd (s_heap s) r (fun o => mkObj (o_kind o) (o_items o) (dict_del (o_attrs o) n))) (s_journal s), Ok tt).
+  (* object.__setattr__(self, n, v) on an instance of C: a field (slot or __dict__ entry) or, when the instance
+     has a __dict__, any name; otherwise AttributeError *)
+  Definition obj_setattr (C : chain) (r : nat) (n : name) (v : value) : M unit :=
+    if has_dict C || mem n (field_names C) then set_attr_raw r n v else raise AttributeErrorC.
+
   (* ------------------------------------------------------------ the __post_init__ attribute *)
   Inductive pifun :=
   | PFNone                          (* no such attribute *)
   | PFNoop                          (* the `lambda _: None` default of getattr *)
-  | PFUser (c : nat) (b : pib)      (* written by the user in class c *)
+  | PFUser (c : nat) (b : pib) (slots : bool) (sup : pifun)
+      (* written by the user in class c; `sup`: what super().__post_init__ resolves to (the attribute of the rest of
+         the MRO); `slots`: class c was decorated with slots=True - dataclass() then built a NEW class and the
+         __class__ cell of the function still holds the old one, so that the zero-argument super() raises TypeError
+         (CPython 3.12) *)
   | PFNew (old : pifun).            (* new_post_init closing over old_post_init *)
   Fixpoint resolve_pi (C : chain) : pifun :=
     match C with
     | [] => PFNone
     | L :: rest =>
-      let below := match l_pi L with Some b => PFUser (l_id L) b | None => resolve_pi rest end in
+      let below := match l_pi L with
+                   | Some b => PFUser (l_id L) b (decorated L && eff_slots L) (resolve_pi rest)
+                   | None => resolve_pi rest
+                   end in
       if ts_installed L then PFNew (match below with PFNone => PFNoop | x => x end) else below
     end.
   Definition has_pi (C : chain) : bool := match resolve_pi C with PFNone => false | _ => true end.
@@ -288,7 +316,8 @@ Section Sem.
     | L :: rest => is_some (l_pi L) || has_pi rest || (ts_installed L && install_before)
     end.
   (* `context = get_context(depth=3, increase_depth_if_name_matches=[copy_with, deep_copy_with])` inside a
-     new_post_init that has `outer` other new_post_init frames between itself and the generated __init__.
+     new_post_init that has `outer` other frames (new_post_init wrappers, user __post_init__ bodies that got here
+     through super()) between itself and the generated __init__.
      Frames: 0 get_context, 1 this new_post_init, 2 .. the outer ones .., then __init__, then
      the caller (constructor call) | dataclasses.replace, copy_with, caller | deep_copy_with, caller.
      Frame 3 is the caller's only for outer = 0 on the constructor path; on the deep_copy_with path its
@@ -308,14 +337,24 @@ Section Sem.
       | Some b => bindM (validate b) (fun _ => run_steps old validate vis ctxv r)
       end
     end.
-  Fixpoint run_pi (f : pifun) (v : via) (outer : nat) (validate : bool -> M unit) : M unit :=
+  (* the statements of a user body, in order; `sup` = the call super().__post_init__() *)
+  Fixpoint run_body (setter : name -> value -> M unit) (sup : M unit) (slots : bool) (body : list pistmt) : M unit :=
+    match body with
+    | [] => ret tt
+    | PSet n v :: rest => bindM (setter n v) (fun _ => run_body setter sup slots rest)
+    | PSuper :: rest => bindM (if slots then raise TypeErrorC else sup) (fun _ => run_body setter sup slots rest)
+    end.
+  Definition end_of (b : pib) : M unit := match pb_raise b with Some e => raise e | None => ret tt end.
+  Fixpoint run_pi (f : pifun) (v : via) (outer : nat) (validate : bool -> M unit) (setter : name -> value -> M unit) : M unit :=
     match f with
     | PFNone => raise AttributeErrorC
     | PFNoop => ret tt
-    | PFUser c b => bindM (emit (EPi c)) (fun _ => match b with PIRet => ret tt | PIRaise e => raise e end)
+    | PFUser c b slots sup =>
+      bindM (emit (EPi c)) (fun _ =>
+      bindM (run_body setter (run_pi sup v (S outer) validate setter) slots (pb_body b)) (fun _ => end_of b))
     | PFNew old =>
       match p_ts P with
-      | Some ts => run_steps (run_pi old v (S outer) validate) validate (caller_visible v outer) None (ts_steps ts)
+      | Some ts => run_steps (run_pi old v (S outer) validate setter) validate (caller_visible v outer) None (ts_steps ts)
       | None => ret tt
       end
     end.
@@ -324,7 +363,8 @@ Section Sem.
     bindM (candidate C kw) (fun r =>
       match nearest_deco C with
       | Some D =>
-        if init_calls_pi D then bindM (run_pi (resolve_pi C) v 0 (fun vis => validate_types vis C r)) (fun _ => ret r)
+        if init_calls_pi D
+        then bindM (run_pi (resolve_pi C) v 0 (fun vis => validate_types vis C r) (obj_setattr C r)) (fun _ => ret r)
         else ret r
       | None => ret r
       end).
@@ -405,16 +445,36 @@ Section Sem.
   Definition path_via (p : path) : via :=
     match p with ByCtor _ => VCtor | ByCopy _ _ => VCopy | ByDeep _ _ => VDeep end.
 
-  (* the user-written __post_init__ that runs for instances of C (at most one: user bodies are
-     abstract effects and do not call super) *)
+  (* the user-written __post_init__ that runs first for instances of C (others run only if it calls super) *)
   Fixpoint user_of (f : pifun) : option (nat * pib) :=
-    match f with PFUser c b => Some (c, b) | PFNew old => user_of old | _ => None end.
+    match f with PFUser c b _ _ => Some (c, b) | PFNew old => user_of old | _ => None end.
   Definition is_new (f : pifun) : bool := match f with PFNew _ => true | _ => false end.
   (* instances of C are validated: the generated __init__ calls __post_init__ and that attribute
      resolves to a new_post_init *)
   Definition validating (C : chain) : bool :=
     match nearest_deco C with
     | Some D => init_calls_pi D && is_new (resolve_pi C)
+    | None => false
+    end.
+  (* the last thing the attribute does before it returns normally is a validation: it is a new_post_init, or a user
+     body that cannot raise afterwards and whose last statement is a super().__post_init__() that reaches one *)
+  Fixpoint last_is_super (body : list pistmt) : bool :=
+    match body with
+    | [] => false
+    | s :: rest => match rest with
+                   | [] => match s with PSuper => true | PSet _ _ => false end
+                   | _ :: _ => last_is_super rest
+                   end
+    end.
+  Fixpoint ends_checked (f : pifun) : bool :=
+    match f with
+    | PFNew _ => true
+    | PFUser _ b slots sup => negb slots && negb (is_some (pb_raise b)) && last_is_super (pb_body b) && ends_checked sup
+    | _ => false
+    end.
+  Definition checked_last (C : chain) : bool :=
+    match nearest_deco C with
+    | Some D => init_calls_pi D && ends_checked (resolve_pi C)
     | None => false
     end.
   (* every field gets a value in __init__ (init=False fields have a default) *)
@@ -438,11 +498,6 @@ Section Sem.
         else setattr_chain false rest n
       else setattr_chain false rest n
     end.
-  Definition has_dict (C : chain) : bool := existsb (fun L => negb (decorated L && eff_slots L)) C.
-  Definition set_attr_raw (r : nat) (n : name) (v : value) : M unit :=
-    fun s => (mkSt (heap_upd (s_heap s) r (fun o => mkObj (o_kind o) (o_items o) (dict_set (o_attrs o) n v))) (s_journal s), Ok tt).
-  Definition del_attr_raw (r : nat) (n : name) : M unit :=
-    fun s => (mkSt (heap_upd (s_heap s) r (fun o => mkObj (o_kind o) (o_items o) (dict_del (o_attrs o) n))) (s_journal s), Ok tt).
   Definition setattr (C : chain) (r : nat) (n : name) (v : value) : M unit :=
     match setattr_chain true C n with
     | SAFrozen => raise FrozenInstanceErrorC
